@@ -424,6 +424,63 @@ class IsrnFamily:
                 ("cross_transitivity_yx", obj.cross_transitivity_yx)]
 
 
+class CcnFamily(ClimateFamily):
+    """CoupledClimateNetwork: two layers of three nodes; the wrappers are part of the queries."""
+    name = "ccn"
+    WRAPPERS = ("cross_layer_adjacency", "adjacency_1", "adjacency_2", "path_lengths_1", "path_lengths_2",
+                "cross_path_lengths", "number_cross_layer_links", "number_internal_links", "cross_link_density",
+                "internal_link_density", "internal_global_clustering", "cross_global_clustering",
+                "cross_transitivity", "cross_average_path_length", "internal_average_path_length",
+                "cross_degree", "internal_degree", "cross_local_clustering", "cross_closeness",
+                "internal_closeness", "cross_betweenness", "internal_betweenness_1", "internal_betweenness_2",
+                "cross_link_distance", "cross_average_link_distance", "similarity_measure_1",
+                "similarity_measure_2", "cross_similarity_measure")
+
+    def build(self, a):
+        from pyunicorn.core import GeoGrid
+        from pyunicorn.climate import CoupledClimateNetwork
+        g = _grid().grid()
+        g1 = GeoGrid(np.arange(10.0), g["lat"][:3], g["lon"][:3], silence_level=3)
+        g2 = GeoGrid(np.arange(10.0), g["lat"][3:], g["lon"][3:], silence_level=3)
+        return CoupledClimateNetwork(g1, g2, SIM.copy(), non_local=bool(a["NL"]), silence_level=3,
+                                     **{a["MODE"]: CLIM_PARAM[a["MODE"]][a["P"]]})
+
+    def names(self, obj):
+        return [n for n in ClimateFamily.names(self, obj) if "eigenvector" not in n]
+
+    def calls(self, obj, a):
+        c = ClimateFamily.calls(self, obj, a)
+        for nm in self.WRAPPERS:
+            if hasattr(obj, nm):
+                c.append((nm, getattr(obj, nm)))
+        return c
+
+
+class EscnFamily(ClimateFamily):
+    """EventSeriesClimateNetwork (event synchronisation of thresholded climate data)."""
+    name = "escn"
+
+    def build(self, a):
+        from pyunicorn.climate import ClimateData, EventSeriesClimateNetwork
+        cd = ClimateData(_data12(), _grid(t=24), 12, silence_level=3)
+        net = EventSeriesClimateNetwork(cd, method="ES", taumax=4.0, symmetrization="mean",
+                                        threshold_method="quantile", threshold_values=0.7,
+                                        threshold_types="above", non_local=bool(a["NL"]), silence_level=3)
+        if not (a["MODE"] == "threshold" and a["P"] == 0):
+            getattr(net, "set_" + a["MODE"])(CLIM_PARAM[a["MODE"]][a["P"]])
+        return net
+
+    def names(self, obj):
+        return [n for n in ClimateFamily.names(self, obj) if "eigenvector" not in n]
+
+    def calls(self, obj, a):
+        c = ClimateFamily.calls(self, obj, a)
+        c.append(("similarity_measure", obj.similarity_measure))
+        c.append(("get_event_matrix", obj.get_event_matrix))
+        c.append(("ES(directed)", lambda: obj.event_series_analysis(method="ES", symmetrization="directed")))
+        return c
+
+
 class ClimateDataFamily:
     name = "climatedata"
 
@@ -509,7 +566,7 @@ class SurrogatesFamily:
         ]
 
 
-FAMILIES = {f.name: f for f in (TsonisFamily(), HilbertFamily(), IsrnFamily(), SurrogatesFamily(), NetworkFamily(), DirNetworkFamily(), InteractingFamily(), GeoNetworkFamily(),
+FAMILIES = {f.name: f for f in (CcnFamily(), EscnFamily(), TsonisFamily(), HilbertFamily(), IsrnFamily(), SurrogatesFamily(), NetworkFamily(), DirNetworkFamily(), InteractingFamily(), GeoNetworkFamily(),
                                 ResNetworkFamily(), RpFamily(), RnFamily(), CrpFamily(), JrpFamily(),
                                 JrnFamily(), ClimateFamily(), ClimateDataFamily(), VisibilityFamily())}
 
@@ -555,6 +612,7 @@ INIT = {
     "tsonis": {"MODE": "threshold", "P": 1, "NL": 0, "WO": 0},
     "hilbert": {"MODE": "threshold", "P": 1, "NL": 0, "DIR": 1},
     "isrn": {"MODE": "threshold", "P": 1},
+    "ccn": {"MODE": "threshold", "P": 1, "NL": 0}, "escn": {"MODE": "threshold", "P": 1, "NL": 0},
     "network": {"A": 1, "W": 0, "LA": 0}, "dirnetwork": {"A": 1, "W": 0, "LA": 0},
     "interacting": {"A": 1, "W": 0, "LA": 0}, "visibility": {"A": 1, "W": 0, "LA": 0},
     "geonetwork": {"A": 1, "W": 0, "LA": 0, "NWT": 1}, "resnetwork": {"R": 1},
